@@ -472,7 +472,7 @@ class Command:
         """
         if not self.has_arguments():
             return False
-        if self.iscomplete(atype, avalue):
+        if self.iscomplete(atype, avalue) and self.required_args:
             return False
 
         if self.curarg is not None and "extra_arg" in self.curarg:
@@ -537,6 +537,9 @@ class Command:
 
         if failed:
             raise BadArgument(self.name, avalue, self.args_definition[pos]["type"])
+        if pos >= len(self.args_definition):
+            # no definition accepts this argument (command with optional arguments only)
+            return False
         return True
 
     def __contains__(self, name: str) -> bool:
